@@ -97,6 +97,12 @@ def hostile_pool(ex_attrs):
     pool += ['match', 'case', 'type', 'letter', 'lettuce', 'Nonesuch', 'Truelove', 'Falsetto', 'whereabouts', 'inner',
              'classy', 'betweenx', 'ignoreme', 'passage', 'requiresx', 'overridex', 'grammarx', 'extendsx', 'superb']
     pool += sorted(LANGUAGE)
+    # every single letter, and fragments of the words the description language and Python treat
+    # specially (a name must be matched whole, never as a piece of None / True / let / where ...)
+    pool += list('abcdefghijklmnopqrstuvwxyzNTF')
+    pool += ['on', 'ne', 'one', 'No', 'Non', 'Nones', 'Tru', 'rue', 'Fals', 'alse', 'le', 'et', 'wher', 'here', 'clas', 'lass', 'pas', 'ass',
+             'requir', 'quires', 'gramma', 'rammar', 'extend', 'xtends', 'betwee', 'etween', 'ignor', 'gnore', 'overrid', 'verride', 'supe', 'uper',
+             'lef', 'eft', 'righ', 'ight', 'infi', 'nfix', 'prefi', 'postfi', 'mixfi', 'star', 'tart', 'St', 'STAR']
     out = []
     for n in pool:
         if n in out or n.startswith('_') or keyword.iskeyword(n) or n in API or n in EXCLUDED:
@@ -206,7 +212,7 @@ def template_grammars():
     T = ('re', '[a-z]+', False)
     # the template's own inline Python mentions no global name at all (a user name equal to a builtin
     # that the *user's* Python calls would be a collision between two user names, not with generated code)
-    N = ('apply', ('re', '[0-9]+', False), ('py', 'lambda ds: ds.__len__()'))
+    N = ('apply', ('re', '[0-9]+', False), ('py', 'lambda _ds: _ds.__len__()'))
     out = []
     stmts = [
         ('rule', 'start', None, ('star', ('ref', 'Entry'))),
@@ -219,12 +225,12 @@ def template_grammars():
         ('rule', 'Group', None, ('right', ('str', '('), ('left', ('sep', ('ref', 'Entry'), ('str', ';'), {'allow_trailer': True, '_op': '/?'}), ('str', ')')))),
         ('rule', 'Wrap', ['par', 'cnt'], ('seq', [('str', '<'), ('rep', ('ref', 'par'), None, ('name', 'cnt')), ('str', '>'), ('py', 'cnt')])),
         ('rule', 'Bound', None, ('let', 'var', ('right', ('str', '$'), ('ref', 'Word')),
-                                 ('seq', [('opt', ('str', '?')), ('where', ('ref', 'Word'), ('py', 'lambda t: t != var')), ('py', 'var')]))),
+                                 ('seq', [('opt', ('str', '?')), ('where', ('ref', 'Word'), ('py', 'lambda _t: _t != var')), ('py', 'var')]))),
         # bound names used inside expressions that are moved into helper functions: an argument of a
         # parameterised rule mentioning a let name in a count, and a class field in inline Python
         ('rule', 'Hoist', None, ('let', 'hv', ('right', ('str', '%'), N), ('call', 'Wrap', [('rep', ('ref', 'Word'), ('name', 'hv'), ('name', 'hv')), ('num', '1')]))),
         ('class', 'Tagged', None, [('field', 'fopen', ('right', ('str', '&'), ('ref', 'Word'))),
-                                   ('field', 'fbody', ('call', 'Wrap', [('where', ('ref', 'Word'), ('py', 'lambda t: t != fopen')), ('num', '1')]))]),
+                                   ('field', 'fbody', ('call', 'Wrap', [('where', ('ref', 'Word'), ('py', 'lambda _t: _t != fopen')), ('num', '1')]))]),
         ('rule', 'Num', None, N),
         ('rule', 'Word', None, T),
         ('irule', 'Blank', ('re', ' +', False)),
@@ -254,7 +260,7 @@ def template_grammars():
         ('rule', 'Item', None, ('alt', [('ref', 'KwLet'), ('ref', 'KwCall'), ('ref', 'KwCls'), ('ref', 'TabCls'), ('ref', 'Misc'), ('ref', 'UseRep')])),
         ('rule', 'Pairing', ['first', 'second'], ('seq', [('ref', 'first'), ('str', '~'), ('ref', 'second')])),
         ('rule', 'KwLet', None, ('let', 'kl', ('right', ('str', 'k'), W),
-                                 ('call', 'Pairing', [('kw', 'first', W), ('kw', 'second', ('where', W, ('py', 'lambda t: t != kl')))]))),
+                                 ('call', 'Pairing', [('kw', 'first', W), ('kw', 'second', ('where', W, ('py', 'lambda _t: _t != kl')))]))),
         ('rule', 'KwTpl', ['kp'], ('call', 'Pairing', [('kw', 'second', ('ref', 'kp')), ('kw', 'first', W)])),
         ('rule', 'KwCall', None, ('right', ('str', 't'), ('call', 'KwTpl', [('str', '!')]))),
         ('class', 'KwCls', None, [('field', 'kf', ('right', ('str', '@'), W)), ('field', 'kg', ('call', 'Pairing', [('kw', 'first', W), ('kw', 'second', NUM)])),
